@@ -421,9 +421,10 @@ def magnet(metafile: str, version: int = 0) -> str:
 
     web_sources = [""]
     if "url-list" in meta:
-        web_sources = [
-            "&ws=" + quote_plus(urllist) for urllist in meta["url-list"]
-        ]
+        urls = meta["url-list"]
+        if isinstance(urls, (str, bytes)):
+            urls = [urls]
+        web_sources = ["&ws=" + quote_plus(urllist) for urllist in urls]
 
     web_seed = "".join(web_sources)
 
